@@ -10,6 +10,19 @@ def run(res):
     c, ov = dc.consts(H=3, subs='Subs_Fixed', beh='Beh_C10_H1', maxq=1, maxeid=2, clear=False)
     dc.check_and_replay(res, 'c10_h3', c, ov, depth_all=0, walks=2000)
     dc.trace_validate(res, 1000 if thorough else 100, 50)
+    # ... and therefore a World: a probe listener deletes, from inside its callback, another entity whose components
+    # listen to the same event; the world held the only strong reference to them (weak harness)
+    from . import world_common as wc
+    from .. import common, replay
+    from ..adapters.world import WorldAdapter
+    C3 = {'c1': ('A', ('on_add', 'on_remove', 'probe')), 'c2': ('A', ('probe',)), 'c3': ('B', ('on_remove', 'probe'))}
+    Kw = wc.base(Acts={'create', 'add', 'remove', 'delete', 'process', 'probe', 'probekill'}, Ids={1, 2}, MaxAuto=0, Types=wc.T2, Bases=wc.BASES2,
+                 **wc.comps(C3))
+    desper = common.import_desper()
+    r, g = res.model_check_py('World', 'c10_world', Kw, invariants=wc.INVARIANTS, properties=wc.PROPERTIES, dump=True)
+    own = {'log', 'is_handler', 'ret', 'comps'}
+    st = replay.run_paths(g, lambda: WorldAdapter(desper, Kw, weak=True), replay.edge_paths(g), own=own)
+    res.absorb(st, 'c10_world:every-edge (world holds the only strong references)', g)
     # non-vacuity: as implemented (no dead-reference check) the model calls a dead receiver
     c2, ov2 = dc.consts(H=2, subs='Subs_AllA', beh='Beh_C10', maxq=1, maxeid=2, skips=False)
     dc.switch_run(res, 'c10_asimpl_dead', c2, ov2, expect=('NoBad',))
